@@ -223,3 +223,218 @@ Proof.
         now rewrite (P2 _ eq_refl), (R2 _ eq_refl).
 Qed.
 End SpecNil.
+
+(* ---------- C4: the alias stage (with its sub-transformers) against the specification ---------- *)
+Section AliasStage.
+Variables (E : env) (env : named) (tags : list str).
+Local Notation m_a := (MAlias tags).
+Local Notation sh := (Shape tags (Some 0%N) false false false).
+Local Notation fty := (fspec_ty E sh env 0%N).
+Local Notation ffs := (fspec_fields E sh env 0%N).
+Local Notation XSv l := (map (valof env) (map enc0 l)).
+
+Definition fnames (names : list str) (g : sfield) : list str :=
+  if sf_anon g then names else names ++ [sf_name g].
+
+(* what is known about the alias sub-transformer of a nested struct at fuel n *)
+Definition subA (n : nat) : Prop :=
+  forall ifs inm tin1 x, wf_fields ifs = true -> simple_fields ifs = true -> alias_ok_fields tags ifs = true ->
+    translate n [m_a] (TStruct ifs inm) = Ok (tin1, x) ->
+    exists ifs1, tin1 = TStruct ifs1 [] /\ wf_fields ifs1 = true /\
+      (forall names, names_fields names ifs1 = anames_fields tags names ifs) /\
+      (forall names, Forall (bound env) (map enc0 (anames_fields tags names ifs)) ->
+         reverse n E [m_a] x (tin1, VStruct (build_fields ifs1 (XSv (names_fields names ifs1)))) =
+         (vals <- ffs names ifs ;; Ok (TStruct ifs inm, VStruct vals))).
+
+Lemma recurse_out_leaf sub m g : wf_ty (sf_ty g) = true -> leaf_ok (sf_ty g) = true ->
+  recurse_out sub m g = Ok (g, (g, None)).
+Proof.
+  intros W L. unfold recurse_out.
+  destruct (sf_ty g) as [| |e|e nm| |k v nm| | | |] eqn:T; simpl in W, L; try discriminate.
+  - destruct e; simpl in *; try discriminate; try reflexivity.
+    destruct (negb (should_recurse m)); reflexivity.
+  - simpl. destruct (kind_struct e); [discriminate | reflexivity].
+  - reflexivity.
+Qed.
+
+Section WithSub.
+Variable n : nat.
+Hypothesis HA : subA n.
+Local Notation sub_n := (fun (m : mangler) (ft : ty) => translate n [m] ft).
+Local Notation subrev_n := (fun (m : mangler) (sx : xstate) (sv : tval) => reverse n E [m] sx sv).
+
+Lemma one_copy g r ia :
+  wf_sf g = true -> simple_ty (sf_ty g) = true -> alias_ok_ty tags (sf_ty g) = true ->
+  recurse_out sub_n m_a g = Ok r ->
+  wf_sf (fst r) = true /\ sf_name (fst r) = sf_name g /\ sf_anon (fst r) = sf_anon g /\ fst (snd r) = g /\
+  (forall names', names_ty names' (sf_ty (fst r)) = anames_ty tags names' (sf_ty g)) /\
+  (forall names' f', Forall (bound env) (map enc0 (anames_ty tags names' (sf_ty g))) ->
+     rec_unmangle_one subrev_n m_a ia (snd r)
+       (f', (sf_ty (fst r), build_ty (sf_ty (fst r)) (XSv (names_ty names' (sf_ty (fst r)))))) =
+     (v <- fty names' (sf_ty g) ;; Ok (f', (sf_ty g, v)))).
+Proof.
+  intros W S A H. destruct (wf_sf_parts g W) as (Wn & Wt & Wa).
+  destruct (wf_leaf_or_struct (sf_ty g) Wt) as [(U & Lv & _) | (ifs & inm & Eq & Wf)].
+  - (* a leaf: no sub-transformer *)
+    assert (L : leaf_ok (sf_ty g) = true).
+    { destruct (sf_ty g) as [| |e| | | | | | |]; simpl in S, U |- *; auto. destruct e; simpl in *; auto; discriminate. }
+    rewrite (recurse_out_leaf sub_n m_a g Wt L) in H. inversion H; subst. simpl.
+    assert (N : forall names', names_ty names' (sf_ty g) = [names'] /\ anames_ty tags names' (sf_ty g) = [names']).
+    { intros names'. destruct (sf_ty g) as [| |e| | | | | | |]; try (split; reflexivity).
+      destruct e; try (split; reflexivity). simpl in U. discriminate. }
+    repeat split; auto.
+    + intros names'. destruct (N names') as [-> ->]. reflexivity.
+    + intros names' f' B. destruct (N names') as [N1 N2]. rewrite N1. rewrite N2 in B. simpl in B.
+      apply Forall_cons_iff in B as [B _].
+      simpl. rewrite build_leaf by exact U.
+      rewrite (fty_leaf E env tags names' (sf_ty g) Wt L U B). reflexivity.
+  - (* a pointer to a struct: the alias sub-transformer *)
+    unfold recurse_out in H. rewrite Eq in H. simpl in H.
+    destruct (sub_n m_a (TStruct ifs inm)) as [[tin1 x]| |] eqn:Sb; simpl in H; try discriminate.
+    inversion H; subst r. clear H. simpl.
+    rewrite Eq in S, A. simpl in S, A.
+    destruct (HA ifs inm tin1 x Wf S A Sb) as (ifs1 & E1 & W1 & Nm & Rv). subst tin1.
+    repeat split; auto.
+    + unfold wf_sf. simpl. rewrite Wn, W1. simpl. rewrite Eq in Wa. destruct (sf_anon g); reflexivity.
+    + intros names'. rewrite Eq. simpl. apply Nm.
+    + intros names' f' B. rewrite Eq in B |- *. simpl in B. simpl names_ty. cbn [build_ty].
+      destruct (spec_nil E env tags) as [_ SN]. destruct (SN ifs Wf S names' B) as [SN1 SN2].
+      assert (Xeq : XSv (names_fields names' ifs1) = map (valof env) (map enc0 (anames_fields tags names' ifs)))
+        by (now rewrite Nm).
+      rewrite (fty_struct E env tags names' ifs inm).
+      destruct (any_set (XSv (names_fields names' ifs1))) eqn:Any.
+      * unfold rec_unmangle_one. cbn [snd fst]. cbv beta. rewrite (Rv names' B).
+        destruct (ffs names' ifs) as [vals| |] eqn:Fv; cbn [obind]; try reflexivity.
+        rewrite (SN2 vals eq_refl). rewrite <- Xeq. unfold any_set in Any. apply negb_true_iff in Any. rewrite Any.
+        reflexivity.
+      * unfold rec_unmangle_one. cbn [snd fst].
+        unfold any_set in Any. apply negb_false_iff in Any. rewrite Xeq in Any.
+        destruct (SN1 Any) as (vals & Fv & Nv). rewrite Fv. cbn [obind]. rewrite Nv.
+        unfold zero_tv. rewrite Eq. reflexivity.
+Qed.
+
+(* one step of ReverseTranslate's loop, with the slice made explicit *)
+Lemma rev_layer_step subrev m e r (pre chunk rest : list fvt) :
+  exported (sfo_name (me_in e)) = true -> length chunk = length (me_out e) ->
+  rev_layer E subrev m (e :: r) (pre ++ chunk ++ rest) (length pre) =
+  (nv <- unmangle_field E subrev m e chunk ;;
+   rs <- rev_layer E subrev m r ((pre ++ chunk) ++ rest) (length (pre ++ chunk)) ;;
+   Ok ((sfo_or_zero (me_in e), nv) :: rs)).
+Proof.
+  intros Ex L. cbn [rev_layer]. rewrite Ex. cbn [negb]. rewrite <- L.
+  destruct (Nat.ltb _ _) eqn:Lt.
+  { apply Nat.ltb_lt in Lt. rewrite !app_length in Lt. lia. }
+  rewrite firstn_skipn_mid. rewrite <- app_assoc. rewrite app_length. reflexivity.
+Qed.
+
+Lemma alias_unmangle_pick f f1 f2 t vp va :
+  alias_unmangle (Some f) [(f1, (t, vp)); (f2, (t, va))] = (x <- pick (sf_name f) t vp va ;; Ok (t, x)).
+Proof.
+  unfold alias_unmangle, pick, go_is_zero. cbn [fst snd sfo_name].
+  destruct (val_eqb vp (zero t)), (val_eqb va (zero t)); reflexivity.
+Qed.
+
+Definition SEG (names : list str) (lf1 : list sfield) : list fvt :=
+  map (fun g => (g, (sf_ty g, build_ty (sf_ty g) (XSv (names_ty (fnames names g) (sf_ty g)))))) lf1.
+Definition zipv (lf : list sfield) (vals : list val) : list fvt := combine lf (combine (map sf_ty lf) vals).
+
+Lemma ffs_pack_cons names f r :
+  ffs names (pack (f :: r)) =
+  (x <- (if negb (exported (sf_name f)) then Ok (zero (sf_ty f))
+         else
+           p <- fty (fnames names f) (sf_ty f) ;;
+           if has_alias tags (sf_tags f) then
+             a <- fty (names ++ [sf_name f ++ alias_field_suffix]) (sf_ty f) ;; pick (sf_name f) (sf_ty f) p a
+           else Ok p) ;;
+   rest <- ffs names (pack r) ;;
+   Ok (x :: rest)).
+Proof. reflexivity. Qed.
+
+Lemma anames_pack_cons names f r :
+  anames_fields tags names (pack (f :: r)) =
+  anames_ty tags (fnames names f) (sf_ty f) ++
+  (if has_alias tags (sf_tags f) then anames_ty tags (names ++ [sf_name f ++ alias_field_suffix]) (sf_ty f) else []) ++
+  anames_fields tags names (pack r).
+Proof. reflexivity. Qed.
+
+Lemma alias_layer_rev : forall lf lf1 st,
+  xlate_layer sub_n m_a lf = Ok (lf1, st) ->
+  Forall (fun f => wf_sf f = true) lf -> simple_fields (pack lf) = true -> alias_ok_fields tags (pack lf) = true ->
+  Forall (fun g => wf_sf g = true) lf1 /\
+  (forall names, concat (map (fun g => names_ty (fnames names g) (sf_ty g)) lf1) = anames_fields tags names (pack lf)) /\
+  (forall names pre, Forall (bound env) (map enc0 (anames_fields tags names (pack lf))) ->
+     rev_layer E subrev_n m_a st (pre ++ SEG names lf1) (length pre) =
+     (vals <- ffs names (pack lf) ;; Ok (zipv lf vals))).
+Proof.
+  induction lf as [|f r IH]; intros lf1 st H W S A; simpl in H.
+  - inversion H; subst. split; [constructor | split; [reflexivity | intros; reflexivity]].
+  - apply Forall_cons_iff in W as [Wf Wr]. destruct (wf_sf_parts f Wf) as (Wn & Wt & Wa).
+    simpl in S, A. apply andb_true_iff in S as [St Sr].
+    apply andb_true_iff in A as [A Ar]. apply andb_true_iff in A as [Aan At].
+    rewrite Wn in H. simpl in H.
+    destruct (alias_mangle tags f) as [outs| |] eqn:Hm; simpl in H; try discriminate.
+    destruct (recurse_outs sub_n m_a outs) as [rec| |] eqn:Hr; simpl in H; try discriminate.
+    destruct (xlate_layer sub_n m_a r) as [[lfr str]| |] eqn:Hx; simpl in H; try discriminate.
+    injection H as El Est. subst lf1 st.
+    destruct (IH lfr str eq_refl Wr Sr Ar) as (I1 & I2 & I3).
+    destruct (alias_mangle_cases tags f outs Hm) as [[Al Eo] | [Al (t1 & t2 & Eo)]]; subst outs.
+    + (* not aliased *)
+      simpl in Hr. destruct (recurse_out sub_n m_a f) as [ra| |] eqn:Ra; simpl in Hr; try discriminate.
+      inversion Hr; subst rec. clear Hr.
+      destruct (one_copy f ra (is_array_ty (sf_ty f)) Wf St At Ra) as (C1 & C2 & C3 & C4 & C5 & C6).
+      assert (Fn : forall names, fnames names (fst ra) = fnames names f) by (intros; unfold fnames; now rewrite C2, C3).
+      split; [constructor; assumption|]. split.
+      * intros names. cbn [app map concat]. rewrite Fn, C5, I2, anames_pack_cons, Al. reflexivity.
+      * intros names pre B. rewrite anames_pack_cons, Al in B. simpl app in B. rewrite map_app in B.
+        apply Forall_app in B as [B1 B2].
+        simpl map. unfold SEG. cbn [app map]. fold (SEG names lfr).
+        change (pre ++ ?x :: SEG names lfr) with (pre ++ [x] ++ SEG names lfr).
+        rewrite rev_layer_step by (simpl; auto).
+        unfold unmangle_field. cbn [me_in me_out rec_unmangle]. rewrite Fn.
+        rewrite (C6 (fnames names f) (fst ra)) by exact B1.
+        rewrite ffs_pack_cons, Wn, Al. cbn [negb].
+        destruct (fty (fnames names f) (sf_ty f)) as [v| |] eqn:Fv; cbn [obind]; try reflexivity.
+        cbn [unmangle alias_unmangle].
+        rewrite (I3 names (pre ++ [(fst ra, (sf_ty (fst ra), build_ty (sf_ty (fst ra)) (XSv (names_ty (fnames names f) (sf_ty (fst ra))))))]) B2).
+        destruct (ffs names (pack r)) as [vals| |]; reflexivity.
+    + (* aliased: two copies *)
+      assert (An : sf_anon f = false) by (destruct (sf_anon f); [rewrite Al in Aan; discriminate | reflexivity]).
+      simpl in Hr.
+      destruct (recurse_out sub_n m_a _) as [ra| |] eqn:Ra in Hr; simpl in Hr; try discriminate.
+      destruct (recurse_out sub_n m_a _) as [rb| |] eqn:Rb in Hr; simpl in Hr; try discriminate.
+      inversion Hr; subst rec. clear Hr.
+      set (p := SF (sf_name f) t1 (sf_anon f) (sf_ty f)) in *.
+      set (a := SF (sf_name f ++ alias_field_suffix) t2 (sf_anon f) (sf_ty f)) in *.
+      assert (Wp : wf_sf p = true) by (unfold wf_sf, p; simpl; rewrite Wn, Wt; exact Wa).
+      assert (Wq : wf_sf a = true).
+      { unfold wf_sf, a. simpl. rewrite exported_app by exact Wn. rewrite Wt. exact Wa. }
+      destruct (one_copy p ra (is_array_ty (sf_ty f)) Wp St At Ra) as (P1 & P2 & P3 & P4 & P5 & P6).
+      destruct (one_copy a rb (is_array_ty (sf_ty f)) Wq St At Rb) as (Q1 & Q2 & Q3 & Q4 & Q5 & Q6).
+      assert (Fp : forall names, fnames names (fst ra) = names ++ [sf_name f]).
+      { intros. unfold fnames. rewrite P2, P3. unfold p. simpl. now rewrite An. }
+      assert (Fq : forall names, fnames names (fst rb) = names ++ [sf_name f ++ alias_field_suffix]).
+      { intros. unfold fnames. rewrite Q2, Q3. unfold a. simpl. now rewrite An. }
+      assert (Ff : forall names, fnames names f = names ++ [sf_name f]) by (intros; unfold fnames; now rewrite An).
+      split; [constructor; [assumption | constructor; assumption]|]. split.
+      * intros names. cbn [app map concat]. rewrite Fp, Fq, P5, Q5, I2, anames_pack_cons, Al, Ff. unfold p, a. cbn [sf_ty].
+        reflexivity.
+      * intros names pre B. rewrite anames_pack_cons, Al, Ff in B. rewrite !map_app in B.
+        apply Forall_app in B as [B1 B]. apply Forall_app in B as [B2 B3].
+        unfold SEG. cbn [app map]. fold (SEG names lfr).
+        change (pre ++ ?x :: ?y :: SEG names lfr) with (pre ++ [x; y] ++ SEG names lfr).
+        rewrite rev_layer_step by (simpl; auto).
+        unfold unmangle_field. cbn [me_in me_out rec_unmangle]. rewrite Fp, Fq.
+        rewrite (P6 (names ++ [sf_name f]) (fst ra)) by (unfold p; simpl; exact B1).
+        rewrite ffs_pack_cons, Wn, Al, Ff. cbn [negb].
+        unfold p at 1. cbn [sf_ty].
+        destruct (fty (names ++ [sf_name f]) (sf_ty f)) as [vp| |] eqn:Fv; cbn [obind]; try reflexivity.
+        rewrite (Q6 (names ++ [sf_name f ++ alias_field_suffix]) (fst rb)) by (unfold a; simpl; exact B2).
+        unfold a at 1. cbn [sf_ty].
+        destruct (fty (names ++ [sf_name f ++ alias_field_suffix]) (sf_ty f)) as [va| |] eqn:Fa; cbn [obind]; try reflexivity.
+        cbn [unmangle]. unfold p, a. cbn [sf_ty]. rewrite alias_unmangle_pick.
+        destruct (pick (sf_name f) (sf_ty f) vp va) as [x| |]; cbn [obind]; try reflexivity.
+        match goal with |- context [rev_layer E _ _ str (?pp ++ SEG names lfr) _] => rewrite (I3 names pp B3) end.
+        destruct (ffs names (pack r)) as [vals| |]; reflexivity.
+Qed.
+End WithSub.
+End AliasStage.
